@@ -323,7 +323,7 @@ Definition mock_classes (sc : schema) (ws : list (str * walk)) : list str :=
   let bad := filter (fun c => negb (ck_ok c)) (build_checks (pkg_checks Both sc) ++ mock_checks ws) in
   let cl := dedup (map ck_class bad) in
   sort_strs (if mem_str cls_redeclared cl
-             then filter (fun c => negb (str_eqb c cls_type || str_eqb c cls_selector)) cl else cl).
+             then filter (fun c => negb (str_eqb c cls_type || str_eqb c cls_selector || str_eqb c cls_unused)) cl else cl).
 
 Definition predict_C20 (c : mcase) : json :=
   let '(sc, ex, ft) := c in
